@@ -5,7 +5,7 @@
 //! X(u) = k.  The cases arrive as CASE lines from TLC (MCRejection); TraceRejection.tla compares with the documented pmf.
 use crate::rng::{ScriptRng, Sm};
 use crate::util::*;
-use rand_distr::{Distribution, Zeta, Zipf};
+use rand_distr::{Beta, Distribution, Zeta, Zipf};
 use serde_json::{json, Value};
 use std::io::{BufRead, Write};
 
@@ -15,6 +15,7 @@ fn mk(fam: &str, p: &[f32]) -> Option<S32> {
     Some(match fam {
         "Zipf" => { let d = Zipf::<f32>::new(p[0], p[1]).ok()?; Box::new(move |r| d.sample(r)) }
         "Zeta" => { let d = Zeta::<f32>::new(p[0]).ok()?; Box::new(move |r| d.sample(r)) }
+        "Beta" => { let d = Beta::<f32>::new(p[0], p[1]).ok()?; Box::new(move |r| d.sample(r)) }
         _ => return None,
     })
 }
@@ -33,7 +34,7 @@ fn limbs128(v: u128) -> Vec<i64> { vec![(v >> 42) as i64, ((v >> 21) & 0x1f_ffff
 
 struct Part { a: Vec<u128>, tail: u128, total: u128, one_word: u128, other: u64, nonint: u64, calls: u64, samples: Vec<Value> }
 
-fn run_range(s: &S32, lo: u64, hi: u64, kmax: usize, seed: u64) -> Part {
+fn run_range(s: &S32, lo: u64, hi: u64, kmax: usize, seed: u64, xs: &[f32]) -> Part {
     let mut two = Two::new();
     let mut p = Part { a: vec![0; kmax], tail: 0, total: 0, one_word: 0, other: 0, nonint: 0, calls: 0, samples: vec![] };
     let mut rnd = Sm(seed ^ lo);
@@ -43,7 +44,7 @@ fn run_range(s: &S32, lo: u64, hi: u64, kmax: usize, seed: u64) -> Part {
         let wu = word(upat);
         let (x, nw) = two.call(s, wu, 0); p.calls += 1;
         if nw == 1 { p.one_word += N as u128; if p.samples.len() < 4 { p.samples.push(json!({"kind": "one-word", "upat": upat, "x": format!("{:e}", x)})); } continue; }   // returned without an acceptance draw
-        if nw != 2 { p.other += 1; continue; }                   // the most favourable acceptance word was not accepted: not a (u, y) iteration
+        if nw != 2 { p.other += 1; continue; }                   // not even the most favourable acceptance word is accepted: acc(u) = 0
         // acc(u) = number of y patterns accepted (a prefix of the lattice): bisection on "accepted in the first iteration"
         // pred(m): "at least m patterns are accepted", i.e. y = m - 1 is accepted; pred(1) holds (y = 0).  The threshold moves
         // slowly with u, so the search gallops from the previous proposal's threshold before bisecting.
@@ -60,9 +61,15 @@ fn run_range(s: &S32, lo: u64, hi: u64, kmax: usize, seed: u64) -> Part {
         while a < b { let m = a + (b - a + 1) / 2; if pred(m, &mut p, &mut two) { a = m; } else { b = m - 1; } }
         prev = a;
         let acc = a as u128;
-        if x.fract() != 0.0 || !x.is_finite() { p.nonint += 1; }
-        let k = x as i64;
-        if k >= 1 && (k as usize) <= kmax { p.a[k as usize - 1] += acc; } else { p.tail += acc; }
+        if xs.is_empty() {
+            if x.fract() != 0.0 || !x.is_finite() { p.nonint += 1; }
+            let k = x as i64;
+            if k >= 1 && (k as usize) <= kmax { p.a[k as usize - 1] += acc; } else { p.tail += acc; }
+        } else {
+            // continuous output: bucket j = the first anchor with x <= xs[j] (anchors are increasing); NaN counts as non-integer
+            if x.is_nan() { p.nonint += 1; }
+            match xs.iter().position(|&a| x <= a) { Some(j) => p.a[j] += acc, None => p.tail += acc }
+        }
         p.total += acc;
         // monotonicity probes: a random y on either side of the threshold
         if upat % 65_521 == 7 {
@@ -90,15 +97,17 @@ pub fn drive(args: &[String]) -> i32 {
         let id = c["id"].as_i64().unwrap();
         let fam = c["fam"].as_str().unwrap().to_string();
         let params: Vec<f32> = c["params"].as_array().unwrap().iter().map(|s| s.as_str().unwrap().parse::<f32>().unwrap()).collect();
-        let kmax = c["k"].as_u64().unwrap() as usize;
+        let xs_s: Vec<String> = c.get("xs").and_then(|v| v.as_array()).map(|a| a.iter().map(|s| s.as_str().unwrap().to_string()).collect()).unwrap_or_default();
+        let xs: Vec<f32> = xs_s.iter().map(|s| s.parse::<f32>().unwrap()).collect();
+        let kmax = if xs.is_empty() { c["k"].as_u64().unwrap() as usize } else { xs.len() };
         let mut base = json!({"op": "law", "case": id, "fam": fam, "ft": "f32", "params": params.iter().map(|x| format!("{:e}", x)).collect::<Vec<_>>()});
         let parts: Vec<Result<Part, String>> = {
             let mut hs = vec![];
             for t in 0..nthreads {
-                let (fam, params) = (fam.clone(), params.clone());
+                let (fam, params, xs) = (fam.clone(), params.clone(), xs.clone());
                 hs.push(std::thread::spawn(move || {
                     install_quiet_panic_hook();
-                    guarded(|| { let s = mk(&fam, &params).expect("constructor"); run_range(&s, t * ((1 << 24) / nthreads), (t + 1) * ((1 << 24) / nthreads), kmax, seed) })
+                    guarded(|| { let s = mk(&fam, &params).expect("constructor"); run_range(&s, t * ((1 << 24) / nthreads), (t + 1) * ((1 << 24) / nthreads), kmax, seed, &xs) })
                 }));
             }
             hs.into_iter().map(|h| h.join().unwrap()).collect()
@@ -115,6 +124,7 @@ pub fn drive(args: &[String]) -> i32 {
         // a one-word return (Zeta's documented +inf for s near 1) is an outcome of its own with the full weight of its proposal word
         let denom = total + one_word;
         let norm = |x: u128| -> Vec<i64> { if denom == 0 { vec![0, 0, 0] } else { limbs128((x << 64) / denom) } };     // one integer division: counts -> probability in units of 2^-64
+        if !xs.is_empty() { let mut run = 0u128; for k in 0..kmax { run += a[k]; a[k] = run; } base["op"] = json!("lawc"); base["xs"] = json!(xs_s); }   // cumulative counts at the anchors
         base["res"] = json!("Ok"); base["P"] = json!(a.iter().map(|&x| norm(x)).collect::<Vec<_>>()); base["tail"] = json!(norm(tail)); base["A"] = json!(limbs128(total));
         base["oneword"] = json!(norm(one_word)); base["other"] = json!(other); base["nonint"] = json!(nonint);
         base["probes"] = json!(probes.iter().filter(|p| p["kind"] == "probe").take(200).collect::<Vec<_>>());
